@@ -298,3 +298,57 @@ func canaryLoopFrameCall(p *Header, n int) {
 }
 
 func canaryFieldFrame2(p *Header) { p.CommandFlags = 1 }
+
+func canarySetVersion(p *Header, v uint8) { p.Version = v }
+
+func canaryDeferArgs(p *Header) {
+	v := uint8(1)
+	defer canarySetVersion(p, v)
+	v = 2
+	_ = v
+}
+
+func canaryOverlapCopy(a []byte) {
+	copy(a[1:], a)
+}
+
+func canaryBeyondLen(a []byte) {
+	b := a[:cap(a)]
+	if len(b) > len(a) {
+		b[len(a)] = 1
+	}
+}
+
+func canarySignedShift(x int64, n uint) int64 {
+	return x >> n
+}
+
+func canaryUintToInt(x uint64) int {
+	return int(x)
+}
+
+func canaryFieldPointer(p *Header) {
+	q := &p.Version
+	*q = 5
+}
+
+func canaryMapOfPointers(m map[int]*Header) {
+	if h := m[1]; h != nil {
+		h.Version = 3
+	}
+}
+
+func canaryNotPure(p *Header) uint8 {
+	p.Version = 1
+	return p.Version
+}
+
+type canaryIface interface{ Get(p *Header) uint8 }
+type canaryImpl struct{}
+
+func (canaryImpl) Get(p *Header) uint8 { p.Version = 4; return 4 }
+
+func canaryUseImpl(p *Header) uint8 {
+	var i canaryIface = canaryImpl{}
+	return i.Get(p)
+}
